@@ -12,6 +12,8 @@ pub mod c07;
 pub mod c08;
 pub mod c09;
 pub mod c10;
+#[cfg(not(feature = "xen"))]
+pub mod c11;
 pub mod c13;
 pub mod c14;
 pub mod c17;
@@ -33,6 +35,8 @@ pub fn dispatch(prop: &str, tier: Tier, replay: Option<String>) -> i32 {
         "C08" => c08::run(tier, replay),
         "C09" => c09::run(tier, replay),
         "C10" => c10::run(tier, replay),
+        #[cfg(not(feature = "xen"))]
+        "C11" => c11::run(tier, replay),
         "C13" => c13::run(tier, replay),
         "C14" => c14::run(tier, replay),
         "C17" => c17::run(tier, replay),
